@@ -894,3 +894,223 @@ pub fn drive_c07demo(cx: &mut Ctx) {
     let fa = FlipArg::K3Inv(key_of(&dt, 2), key_of(&dt, 0), key_of(&dt, 5));
     op_flip(&mut cx.tr, 0, &mut dt, &fa, 0, "scenario-final");
 }
+
+// ---------------------------------------------------------------------------------------
+// C03: every failpoint reachable under every mutating operation, forced one at a time
+// ---------------------------------------------------------------------------------------
+use delaunay::core::util::verif_failpoints as fp;
+
+#[derive(Clone, Debug)]
+enum MutOp {
+    Insert(VIn, bool),
+    Remove(uuid::Uuid),
+    Flip(FlipArg),
+    Repair(bool),
+}
+
+fn run_mut_op<K: Kern<D>, const D: usize>(cx: &mut Ctx, obj: usize, dt: &mut Dt<K, D>, op: &MutOp) -> bool {
+    match op {
+        MutOp::Insert(v, st) => op_insert(&mut cx.tr, obj, dt, v, *st),
+        MutOp::Remove(u) => op_remove(&mut cx.tr, obj, dt, *u),
+        MutOp::Flip(fa) => !op_flip(&mut cx.tr, obj, dt, fa, 0, "failpoint").panicked,
+        MutOp::Repair(adv) => op_repair(&mut cx.tr, obj, dt, *adv, None, 7),
+    }
+}
+
+/// run `op` silently on a clone and return the failpoint sites it passes (in order)
+fn discover<K: Kern<D>, const D: usize>(dt: &Dt<K, D>, op: &MutOp, s: i32) -> Vec<&'static str> {
+    let mut c = dt.clone();
+    fp::start_log();
+    let _ = std::panic::catch_unwind(std::panic::AssertUnwindSafe(|| match op {
+        MutOp::Insert(v, st) => {
+            if *st {
+                let _ = c.insert_with_statistics(v.vertex::<D>(s));
+            } else {
+                let _ = c.insert(v.vertex::<D>(s));
+            }
+        }
+        MutOp::Remove(u) => {
+            if let Some((_, v)) = find_vertex(&c, *u) {
+                let _ = c.remove_vertex(&v);
+            }
+        }
+        MutOp::Flip(fa) => {
+            let _ = match fa {
+                FlipArg::K1Insert(ck, v) => c.flip_k1_insert(*ck, v.vertex::<D>(s)),
+                FlipArg::K1Remove(vk) => c.flip_k1_remove(*vk),
+                FlipArg::K2(ck, i) => c.flip_k2(delaunay::core::facet::FacetHandle::new(*ck, *i)),
+                FlipArg::K3(ck, i, j) => c.flip_k3(delaunay::core::algorithms::flips::RidgeHandle::new(*ck, *i, *j)),
+                FlipArg::K2Inv(a, b) => c.flip_k2_inverse_from_edge(delaunay::core::edge::EdgeKey::new(*a, *b)),
+                FlipArg::K3Inv(a, b, e) => c.flip_k3_inverse_from_triangle(delaunay::core::algorithms::flips::TriangleHandle::new(*a, *b, *e)),
+            };
+        }
+        MutOp::Repair(adv) => {
+            if *adv {
+                let _ = c.repair_delaunay_with_flips_advanced(delaunay::core::delaunay_triangulation::DelaunayRepairHeuristicConfig::default());
+            } else {
+                let _ = c.repair_delaunay_with_flips();
+            }
+        }
+    }));
+    fp::take_log()
+}
+
+fn failpoint_case<K: Kern<D>, const D: usize>(cx: &mut Ctx, r: &mut Rng, idx: usize) {
+    let g = GUARANTEES[idx % 3];
+    let hi = max_coord(D);
+    let n = D + 3 + r.below(3);
+    let pts = if idx % 3 == 0 { random_points(r, D, n, hi) } else { gp_points(r, D, n.min(8), hi) };
+    if pts.len() < D + 2 {
+        return;
+    }
+    // the operations to torture on this base
+    let mut ops: Vec<(String, MutOp, usize)> = Vec::new(); // (name, op, prep: 0 none / 1 flip away first / 2 repair off)
+    {
+        // an interior-ish and an exterior point for insertion
+        let mut q: Vec<i64> = vec![0; D];
+        for p in &pts {
+            for j in 0..D {
+                q[j] += p[j];
+            }
+        }
+        for x in q.iter_mut() {
+            *x /= pts.len() as i64;
+        }
+        if !pts.contains(&q) {
+            ops.push(("insert-interior".into(), MutOp::Insert(VIn::lattice(cx.fresh_uuid(), q.clone(), Some(1)), false), 0));
+            ops.push(("insert_stats-interior".into(), MutOp::Insert(VIn::lattice(cx.fresh_uuid(), q, Some(1)), true), 0));
+        }
+        let ext: Vec<i64> = (0..D).map(|j| if j == 0 { hi + 2 } else { r.range(0, hi) }).collect();
+        ops.push(("insert-exterior".into(), MutOp::Insert(VIn::lattice(cx.fresh_uuid(), ext, Some(2)), idx % 2 == 0), 0));
+        ops.push(("repair".into(), MutOp::Repair(false), 1));
+        ops.push(("repair-advanced".into(), MutOp::Repair(true), 1));
+    }
+    for (opname, op0, prep) in ops {
+        // fresh base for every operation
+        cx.start_case(format!("C03 failpoints D={D} k={} op={opname} i={idx}", K::NAME));
+        let input = cx.inputs(&pts, true);
+        let Some(mut base) = op_construct::<K, D>(&mut cx.tr, 0, Ctor::WithGuarantee, g, Opts::default_like(), &input) else { return };
+        if idx % 4 == 1 {
+            op_set_policy(&mut cx.tr, 0, &mut base, PolicySet::Repair(DelaunayRepairPolicy::Never));
+        }
+        if idx % 4 == 2 {
+            op_set_policy(&mut cx.tr, 0, &mut base, PolicySet::Check(delaunay::core::delaunay_triangulation::DelaunayCheckPolicy::EveryN(std::num::NonZeroUsize::new(1).unwrap())));
+        }
+        if prep == 1 {
+            // flip away from Delaunay so that the repair has work to do
+            let cks: Vec<CellKey> = base.tds().cell_keys().collect();
+            'f: for ck in cks {
+                for i in 0..=(D as u8) {
+                    let mut probe = base.clone();
+                    if probe.flip_k2(delaunay::core::facet::FacetHandle::new(ck, i)).is_ok() && probe.as_triangulation().is_valid().is_ok() {
+                        let out = op_flip(&mut cx.tr, 0, &mut base, &FlipArg::K2(ck, i), 0, "prep");
+                        if out.ok {
+                            break 'f;
+                        }
+                    }
+                }
+            }
+        }
+        torture(cx, &mut base, &op0, &opname);
+    }
+    // removal and flips need keys of the concrete base: build once more and derive ops from it
+    cx.start_case(format!("C03 failpoints D={D} k={} op=remove/flips i={idx}", K::NAME));
+    let input = cx.inputs(&pts, true);
+    let Some(mut base) = op_construct::<K, D>(&mut cx.tr, 0, Ctor::WithGuarantee, g, Opts::default_like(), &input) else { return };
+    let us: Vec<uuid::Uuid> = base.vertices().map(|(_, v)| v.uuid()).collect();
+    for u in us.iter().take(3) {
+        torture(cx, &mut base, &MutOp::Remove(*u), "remove");
+    }
+    let cks: Vec<CellKey> = base.tds().cell_keys().collect();
+    let mut flips: Vec<FlipArg> = Vec::new();
+    for ck in cks.iter().take(4) {
+        for i in 0..=(D as u8) {
+            flips.push(FlipArg::K2(*ck, i));
+        }
+        if D >= 3 {
+            flips.push(FlipArg::K3(*ck, 0, 1));
+            flips.push(FlipArg::K3(*ck, 1, 2));
+        }
+        let c = base.tds().get_cell(*ck).unwrap();
+        let mut m = vec![0i64; D];
+        for vk in c.vertices() {
+            let v = base.tds().get_vertex_by_key(*vk).unwrap();
+            let (vm, _, _, _) = cx.tr.coord_proj(v.point().coords());
+            for t in 0..D {
+                m[t] += vm[t];
+            }
+        }
+        for x in m.iter_mut() {
+            *x /= D as i64 + 1;
+        }
+        flips.push(FlipArg::K1Insert(*ck, VIn::lattice(cx.fresh_uuid(), m, Some(3))));
+    }
+    if let Some(vk) = base.tds().vertex_keys().next() {
+        flips.push(FlipArg::K1Remove(vk));
+    }
+    r.shuffle(&mut flips);
+    for fa in flips.into_iter().take(if cx.thorough { 14 } else { 6 }) {
+        if base.tds().cell_keys().count() == 0 {
+            break;
+        }
+        torture(cx, &mut base, &MutOp::Flip(fa), "flip");
+    }
+}
+
+/// force every failpoint `op` passes, one at a time (1st..3rd hit), on `dt`; a forced failure must leave
+/// `dt` exactly as it was (judged by the trace spec on each call), so the next site is forced on the
+/// same object. At the end the unforced operation runs on `dt` and on a twin cloned before the first
+/// forced failure: C03 "later operations behave as if the failed call had never been made".
+fn torture<K: Kern<D>, const D: usize>(cx: &mut Ctx, dt: &mut Dt<K, D>, op: &MutOp, opname: &str) {
+    let s = cx.tr.s;
+    let sites = discover(dt, op, s);
+    let mut uniq: Vec<&'static str> = Vec::new();
+    for x in &sites {
+        if !uniq.contains(x) {
+            uniq.push(x);
+        }
+    }
+    let base_tag = cx.tr.tag.clone();
+    let mut twin = crate::ops2::op_clone(&mut cx.tr, 0, 1, dt);
+    for site in uniq {
+        let count = sites.iter().filter(|x| **x == site).count();
+        for k in 1..=count.min(3) {
+            cx.tr.tag = format!("{base_tag} fp={site}#{k} ({opname})");
+            let before = (cells_as_ids(&mut cx.tr, dt), dt.number_of_vertices());
+            fp::arm(site, k);
+            let alive = run_mut_op(cx, 0, dt, op);
+            let _fired = fp::disarm();
+            cx.tr.tag = base_tag.clone();
+            if !alive {
+                return;
+            }
+            if (cells_as_ids(&mut cx.tr, dt), dt.number_of_vertices()) != before {
+                // the operation went through in spite of the forced failure (a fallback path absorbed
+                // it): it is applied now; nothing more to force on this state
+                return;
+            }
+            crate::ops2::op_compare(&mut cx.tr, 0, 1, "after forced failure");
+        }
+    }
+    cx.tr.tag = format!("{base_tag} unforced ({opname})");
+    let a = run_mut_op(cx, 0, dt, op);
+    let b = run_mut_op(cx, 1, &mut twin, op);
+    if a && b {
+        crate::ops2::op_compare(&mut cx.tr, 0, 1, "after the unforced operation on object and twin");
+    }
+    cx.tr.tag = base_tag;
+}
+
+pub fn drive_failpoints(cx: &mut Ctx) {
+    let per_dim = if cx.thorough { 40 } else { 8 };
+    for d in 2..=4usize {
+        for i in 0..per_dim {
+            let mut r = Rng::new(cx.seed * 1_700_009 + (d * 100_000 + i) as u64);
+            if !cx.mine() {
+                continue;
+            }
+            let k = (i / 2) % 2;
+            dispatch!(d, k, failpoint_case(cx, &mut r, i));
+        }
+    }
+}
